@@ -61,7 +61,7 @@ class _Run:
         self.problems: list[tuple[str, str]] = []      # (signature, what) found while running
 
     def _new_epoch(self):
-        return {'calls': {}, 'attempts': {}, 'outcomes': {}, 'events': {}}
+        return {'calls': {}, 'attempts': {}, 'outcomes': {}, 'events': {}, 'log': {}}
 
     def now(self) -> int:
         return round(self.loop.time() / TICK)
@@ -72,9 +72,11 @@ class _Run:
 
     def attempt(self, user: str, kind: str):
         self.ep['attempts'].setdefault(user, []).append((self.now(), kind))
+        self.ep['log'].setdefault(user, []).append((self.now(), kind))
 
     def outcome(self, user: str, kind: str):
         self.ep['outcomes'].setdefault(user, []).append((self.now(), kind))
+        self.ep['log'].setdefault(user, []).append((self.now(), kind))
 
     async def park(self, user: str, kind: str):
         fut = self.loop.create_future()
@@ -360,22 +362,30 @@ def _monitor(case: dict, res: dict) -> list[Violation]:
                          f'{where}: attempt failed ({last[1]}) at tick {last[0]}, a reason remains, '
                          f'{DELAY[last[1]]} s have passed and no retry was sent',
                          observed={'now': cp['now']}, required={'retry_at': due})
-    # retries: every AddUser that does not open a block is justified by an earlier failed attempt
+    # retries: every AddUser that does not open a block is justified by an earlier failed attempt whose
+    # documented delay has passed — and whose retry was not called off: a RemoveUser sent before the retry
+    # was due means the reasons had become empty, "only while a reason remains"
     for ep in epochs:
-        for n, attempts in ep['attempts'].items():
-            fails = sorted(t + DELAY[k] * 1024 for t, k in ep['outcomes'].get(n, []) if k in DELAY)
+        for n, log in ep.get('log', {}).items():
+            fails: list[int] = []        # due ticks of failures that may still justify a retry
             prev = None
-            for t, k in attempts:
-                if k == 'A' and prev == 'A':
-                    ok = [d for d in fails if d <= t]
+            for t, k in log:
+                if k in DELAY:
+                    fails.append(t + DELAY[k] * 1024)
+                    continue
+                if k == 'R':
+                    fails = [d for d in fails if d <= t]
+                elif k == 'A' and prev == 'A':
+                    ok = sorted(d for d in fails if d <= t)
                     if not ok:
                         flag('C15-spurious-retry',
                              f'user {n}: AddUser re-sent at tick {t} without a failed attempt whose documented '
-                             f'retry delay has passed (retry due ticks: {fails})',
+                             f'retry delay has passed while a reason remained (retries still due at ticks: {fails})',
                              observed={'at': t}, required={'due': fails})
                         break
                     fails.remove(ok[0])
-                prev = k
+                if k in ('A', 'R'):
+                    prev = k
     return vs
 
 
